@@ -5,8 +5,8 @@
     character references; [TError] marks anything outside that language.
     Property theorems only; proofs are in Proofs/Html*.v. *)
 From Coq Require Import List ZArith NArith Bool String.
-From RG Require Import Base.Str Base.Num Gen.GenTemplates Model.Recipe Model.Units Model.Html Model.HtmlTok
-  Proofs.HtmlEscape Proofs.HtmlTemplates.
+From RG Require Import Base.Str Base.Num Gen.GenTemplates Model.Recipe Model.Table Model.Units Model.Html Model.HtmlTok
+  Proofs.HtmlEscape Proofs.HtmlTemplates Proofs.HtmlTag Proofs.HtmlCells Proofs.HtmlAlpha.
 Import ListNotations.
 
 (** ** Text *)
@@ -52,6 +52,34 @@ Theorem C10_id_charset : forall names idx prefix i,
 Proof. exact id_charset. Qed.
 Print Assumptions C10_id_charset.
 
+(** ** Whole cells *)
+(** FULL statement aimed at: for every cell [c] (any strings in names, step
+    descriptions, output names, units, spacing, prepositions, remainder
+    wordings), [render_cell c] tokenizes without error to the same tag
+    skeleton as [render_cell (alpha_cell c)], where [alpha_cell] replaces every
+    user string by "x" (a unit the unit system knows by its lower-case name,
+    because it selects the alternative-unit list), AND the text tokens decode
+    to the user's strings.
+    PROVED (partial): the skeleton part, in the strong form "the skeleton is
+    the function [cell_skel] of the cell's shape only (numbers, unit lookup,
+    list lengths, spans, borders)", with no error token, including [t]'s
+    newline / indent / rstrip rule (Proofs/HtmlIndent.v: spaces are only
+    inserted and white space only removed in the data state).  [val_ok
+    prefix]: the id prefix has no line-break character and no U+0000 (the
+    prefixes "recipe-", "recipe<k>-", "sub-recipe-" of the code satisfy it).
+    MISSING: the statement about the text tokens (visible text = the user's
+    strings); it is covered by the correspondence suite [cells] and its
+    oracle (visible text of every td compared with the recipe) only. *)
+Theorem C10_cell_skeleton_partial : forall c prefix h h',
+  val_ok prefix -> render_cell c prefix = Ok h -> render_cell (alpha_cell c) prefix = Ok h' ->
+  tag_skeleton (tokenize h) = tag_skeleton (tokenize h') /\
+  tag_skeleton (tokenize h) = cell_skel c /\ skel_clean (cell_skel c) = true.
+Proof.
+  intros c prefix h h' Hp H H'. split; [exact (cell_skeleton_twin c prefix h h' Hp H H')|].
+  split; [exact (cell_skeleton c prefix h Hp H) | exact (cell_skel_clean c)].
+Qed.
+Print Assumptions C10_cell_skeleton_partial.
+
 (** ** Site templates *)
 (** Every [{{ ... }}] of every template (list generated with Jinja's lexer) is
     either one of the three pre-rendered HTML fragments marked [|safe] (body,
@@ -88,6 +116,20 @@ Proof. vm_compute. repeat split; try reflexivity. discriminate. Qed.
 Example C10_ex_sinks : List.length template_sinks = 20%nat /\
   existsb (fun k => match sk_ctx k with CtxAttrDq => true | _ => false end) template_sinks = true.
 Proof. vm_compute. split; reflexivity. Qed.
+
+(** an adversarial ingredient cell with a known unit (alternative-unit list, so [t]'s indentation is exercised)
+    renders, its twin renders, and the prefix is admissible *)
+Definition ex_cell : hcell :=
+  mkHCell (Ingredient [PStr (s "</td><script>x</script> & ""q"""); PNum (NFrac 3%Z 2%positive)]
+                      (Some (mkQ (NInt 2%Z) (Some (s "TSP")) (s " ") (s " <of>"))))
+          2%N 1%N BSub BNormal BNone BNormal.
+
+Example C10_ex_cell :
+  val_ok (s "recipe-") /\
+  (exists h, render_cell ex_cell (s "recipe-") = Ok h) /\
+  (exists h', render_cell (alpha_cell ex_cell) (s "recipe-") = Ok h') /\
+  List.length (cell_skel ex_cell) = 26%nat.
+Proof. vm_compute. repeat split; eexists; reflexivity. Qed.
 
 Example C10_ex_id :
   generate_subrecipe_output_id [[PStr (s "a <b> & ""c"" "); PNum (NFrac 3%Z 2%positive)]] 0%nat (s "recipe-")
